@@ -26,7 +26,7 @@ def main():
     pairs = re.findall(r"(/tmp/wt/\S+?)\s+(?:to|->|into)\s+(?:/tmp/wt/%s/)?(crates/\S+|examples/\S+)" % ID, inst)
     if not pairs:
         dest = re.search(r"(crates/[\w/.-]+|examples/[\w/.-]+)", inst)
-        for f in glob.glob(os.path.join(out, "demo*")):
+        for f in sorted(set(glob.glob(os.path.join(out, "demo*")) + glob.glob(os.path.join(out, "*.rs")))):
             if dest:
                 d = dest.group(1)
                 pairs.append((f, d if d.endswith(os.path.basename(f)) or "." in os.path.basename(d) else os.path.join(d, os.path.basename(f))))
@@ -65,6 +65,10 @@ def main():
         if os.path.isdir(p): shutil.rmtree(p)
         elif os.path.exists(p): os.remove(p)
     sh("git checkout -- . ", wt)
+    if "--skip-suite" in sys.argv and os.path.exists(os.path.join(out, "confirm.json")):
+        prev = json.load(open(os.path.join(out, "confirm.json")))
+        if "suite_with_change" in prev:
+            res["suite_with_change"] = prev["suite_with_change"]
     s = res.get("suite_with_change", {"passed": -1, "failed": 0})
     res["confirmed"] = bool(res["demo_with_change_rc"] != 0 and res["demo_without_change_rc"] == 0 and s["failed"] == 0 and (s["passed"] >= 860 or s["passed"] == -1) and not s.get("errors"))
     json.dump(res, open(os.path.join(out, "confirm.json"), "w"), indent=1)
